@@ -150,6 +150,206 @@ fn scenario(max_steps: usize) -> BoxedStrategy<Case> {
         .boxed()
 }
 
+// ---------------------------------------------------------------------------------------------------------------
+// engine stage: the real template engine of tmpl/index.ts
+
+/// One data operation of a batch (js/worker.mjs `engine`): a replace on one of eleven paths of the small data object or a
+/// splice of one of its three arrays; indexes are resolved against the data at that moment.
+#[derive(Clone, Debug, Serialize, Deserialize, PartialEq)]
+pub struct EngineOp {
+    pub splice: bool,
+    pub target: u8,
+    pub i: u32,
+    pub j: u32,
+    pub del: u8,
+    pub val: JsVal,
+    pub vals: Vec<JsVal>,
+}
+
+#[derive(Clone, Debug, Serialize, Deserialize)]
+pub struct EngineCase {
+    pub shape: u8,
+    pub keyed: bool,
+    pub d0: JsVal,
+    /// one `updateValues` call each
+    pub batches: Vec<Vec<EngineOp>>,
+    /// template update mode: default (binding map for single top-level changes) or `virtualTree`
+    pub virtual_tree: bool,
+    pub style: u64,
+    pub engine_stage: bool,
+}
+
+pub struct C06Engine;
+
+pub fn engine_group(c: &EngineCase) -> Group {
+    use crate::model::expr::{BinOp, Expr, ObjItem};
+    use crate::model::wxml::{Attr, AttrKind, Branch, Carrier, El, ForNode, Node, Piece, Tis, Tmpl, Val};
+    let id = |s: &str| Expr::Ident(s.to_string());
+    let txt = |ps: Vec<Piece>| Node::Text(ps);
+    let bind = |e: Expr| Piece::Bind(e);
+    let lit = |s: &str| Piece::Lit(s.to_string());
+    let member = |o: Expr, m: &str| Expr::Member(Box::new(o), m.to_string());
+    let key = if c.keyed { Some("id") } else { None };
+    let for_ = |list: Expr, key: Option<&str>, kids: Vec<Node>| Node::For(Box::new(ForNode { list: Val::Bind(list), item: None, index: None, key: key.map(|k| k.to_string()), kids, carrier: Carrier::Block }));
+    let ol = || member(id("o"), "l");
+    let mut named = vec![];
+    let body = match c.shape % 7 {
+        0 => vec![for_(id("list"), key, vec![txt(vec![bind(member(id("item"), "v")), lit("|"), bind(id("a")), lit("|"), bind(id("index"))])]), for_(id("c"), None, vec![txt(vec![bind(id("item")), lit(","), bind(id("index"))])])],
+        1 => vec![for_(id("list"), key, vec![for_(id("c"), if c.keyed { Some("*this") } else { None }, vec![txt(vec![bind(id("item")), lit("/"), bind(id("index"))])]), txt(vec![bind(member(id("item"), "id"))])])],
+        2 => vec![
+            txt(vec![bind(member(id("c"), "length")), lit(";"), bind(member(id("list"), "length")), lit(";"), bind(member(ol(), "length"))]),
+            for_(id("c"), None, vec![txt(vec![bind(id("item")), lit(",")])]),
+            for_(ol(), None, vec![txt(vec![bind(id("item")), lit("~")])]),
+        ],
+        3 => vec![
+            Node::El(El { tag: "v".into(), attrs: vec![Attr { kind: AttrKind::Plain, name: "n".into(), val: Some(Val::Bind(member(id("list"), "length"))) }], slot: None, slot_refs: vec![], kids: vec![] }),
+            for_(id("list"), key, vec![txt(vec![bind(member(id("item"), "v")), lit("#"), bind(member(id("list"), "length"))])]),
+        ],
+        4 => vec![for_(ol(), None, vec![txt(vec![bind(id("item")), lit("~"), bind(member(id("o"), "n")), lit("~"), bind(id("a"))])]), txt(vec![bind(member(id("o"), "n")), lit("|"), bind(id("a")), lit("|"), bind(id("b"))])],
+        5 => {
+            named.push(("t2".to_string(), vec![for_(id("list"), key, vec![txt(vec![bind(member(id("item"), "v")), lit("~"), bind(id("a"))])]), txt(vec![bind(member(id("list"), "length"))])]));
+            vec![Node::Tis(Tis { is: Val::Static("t2".into()), data: Some(vec![ObjItem::Short("list".into()), ObjItem::Short("a".into())]), data_expr: None })]
+        }
+        _ => vec![Node::If(vec![
+            Branch { cond: Some(Val::Bind(member(id("c"), "length"))), kids: vec![for_(id("c"), None, vec![txt(vec![bind(id("item")), lit(",")])])], carrier: Carrier::Block },
+            Branch { cond: None, kids: vec![txt(vec![lit("empty"), bind(Expr::Binary(BinOp::Add, Box::new(id("a")), Box::new(id("b"))))])], carrier: Carrier::Block },
+        ])],
+    };
+    Group { files: vec![Tmpl { path: "p".into(), named, body: crate::model::wxml::normalise_nodes(body), ..Default::default() }], scripts: vec![] }
+}
+
+fn engine_op() -> BoxedStrategy<EngineOp> {
+    (proptest::bool::weighted(0.45), 0u8..11, 0u32..64, 0u32..64, 0u8..3, gen::data::scalar(), proptest::collection::vec(gen::data::scalar(), 0..3))
+        .prop_map(|(splice, target, i, j, del, val, vals)| EngineOp { splice, target, i, j, del, val, vals })
+        .boxed()
+}
+
+impl PropCheck for C06Engine {
+    type Case = EngineCase;
+
+    fn strategy(&self) -> BoxedStrategy<EngineCase> {
+        (
+            0u8..7,
+            any::<bool>(),
+            gen::data::keyed_list(),
+            proptest::collection::vec(gen::data::scalar(), 0..4),
+            proptest::collection::vec(gen::data::scalar(), 0..3),
+            (gen::data::scalar(), gen::data::scalar(), gen::data::scalar()),
+            proptest::collection::vec(proptest::collection::vec(engine_op(), 1..6), 1..4),
+            any::<bool>(),
+            any::<u64>(),
+            0u8..3,
+        )
+            .prop_map(|(shape, keyed, list, c, ol, (a, b, n), mut batches, virtual_tree, style, focus)| {
+                // three of five operations work on one array of the case (whole, item, field of an item, splice), so that
+                // one batch often replaces below an array and splices it, in both orders
+                for b in batches.iter_mut() {
+                    for o in b.iter_mut() {
+                        if o.j % 5 < 3 {
+                            if o.splice {
+                                o.target = focus;
+                            } else {
+                                let paths: &[u8] = match focus {
+                                    0 => &[2, 3, 3],
+                                    1 => &[4, 5, 6, 6],
+                                    _ => &[8, 9, 9],
+                                };
+                                o.target = paths[(o.i as usize / 7) % paths.len()];
+                            }
+                        }
+                    }
+                }
+                let d0 = JsVal::Obj(vec![("list".into(), list), ("c".into(), JsVal::Arr(c)), ("a".into(), a), ("b".into(), b), ("o".into(), JsVal::Obj(vec![("l".into(), JsVal::Arr(ol)), ("n".into(), n)]))]);
+                EngineCase { shape, keyed, d0, batches, virtual_tree, style, engine_stage: true }
+            })
+            .boxed()
+    }
+
+    fn eval(&self, w: Option<&mut Worker>, cases: &[EngineCase]) -> Result<Vec<Outcome>, String> {
+        let w = w.ok_or("no worker")?;
+        let mut outs = vec![];
+        for c in cases {
+            outs.push(eval_engine_case(w, c)?);
+        }
+        Ok(outs)
+    }
+
+    fn case_json(&self, case: &EngineCase) -> Value {
+        let src = crate::compile::print_group(&engine_group(case), case.style);
+        json!({"case": serde_json::to_value(case).unwrap(), "source": src, "engine_stage": true})
+    }
+
+    fn case_from_json(&self, v: &Value) -> Result<EngineCase, String> {
+        serde_json::from_value(v["case"].clone()).map_err(|e| e.to_string())
+    }
+}
+
+pub fn eval_engine_case(w: &mut Worker, c: &EngineCase) -> Result<Outcome, String> {
+    let mut out = Outcome::default();
+    let group = engine_group(c);
+    let compiled = match compile_group(&group, c.style) {
+        Ok(x) => x,
+        Err(p) => {
+            out.failures.push(Failure { sig: format!("C06|engine|compiler-panic|{}", short_hash(&p)), tag: None, what: format!("compiler panicked: {}", p), detail: json!({}) });
+            return Ok(out);
+        }
+    };
+    let src0 = compiled.sources[0].1.clone();
+    let batches: Vec<Vec<Value>> = c
+        .batches
+        .iter()
+        .map(|b| b.iter().map(|o| json!({"k": if o.splice { "splice" } else { "replace" }, "target": o.target, "i": o.i, "j": o.j, "del": o.del, "val": o.val.to_js(), "vals": o.vals.iter().map(|v| v.to_js()).collect::<Vec<_>>()})).collect())
+        .collect();
+    let d0 = c.d0.to_js();
+    let req = json!({"kind":"engine","bundle":compiled.bundle,"entry":"p","data0":d0,"batches":batches,"mode": if c.virtual_tree { "virtualTree" } else { "" }});
+    let resp = w.request(&req).map_err(|e| e.0)?;
+    out.labels.push(format!("engine:shape{}", c.shape % 7));
+    out.labels.push(if c.virtual_tree { "engine:mode-virtualTree".into() } else { "engine:mode-default".into() });
+    out.sample = Some(json!({"source": crate::util::truncate(&src0, 300), "d0": crate::util::truncate(&d0, 200)}));
+    if let Some(e) = resp.get("error") {
+        out.failures.push(Failure { sig: format!("C06|engine|bundle-error|{}", short_hash(e.as_str().unwrap_or(""))), tag: None, what: format!("generated code does not load: {}", e), detail: json!({}) });
+        return Ok(out);
+    }
+    if resp.get("createThrew").is_some() {
+        out.labels.push("create-threw".into());
+        return Ok(out);
+    }
+    let steps = resp["steps"].as_array().cloned().unwrap_or_default();
+    if resp.get("domainExit").is_some() || steps.iter().any(|s| s.get("domainExit").is_some()) {
+        out.labels.push("domain-exit:non-unique-keys".into());
+        out.excluded += 1;
+    }
+    out.units = steps.iter().map(|s| s["nodes"].as_u64().unwrap_or(0)).sum();
+    let mut compared = false;
+    for s in &steps {
+        for l in s["labels"].as_array().cloned().unwrap_or_default() {
+            if let Some(l) = l.as_str() {
+                out.labels.push(format!("engine:{}", l));
+            }
+        }
+        if s.get("nodes").is_some() {
+            compared = true;
+        }
+        let i = s["step"].as_u64().unwrap_or(0);
+        if let Some(m) = s["mismatches"].as_array().and_then(|a| a.first()) {
+            let m = Mismatch::from_json(m);
+            let class = if m.ch == "throw" { "throw".to_string() } else { format!("stale|{}", m.ch) };
+            out.failures.push(Failure {
+                sig: format!("C06|engine|{}", class),
+                tag: None,
+                what: format!("engine stage, after batch {} ({}): {} (expected = fresh instance with the new data) ; source {:?}", i, s["changes"].as_str().unwrap_or(""), m.describe(), crate::util::truncate(&src0, 200)),
+                detail: json!({"batch": i, "changes": s["changes"], "data_after": s["data"], "source": src0}),
+            });
+        }
+    }
+    out.labels.sort();
+    out.labels.dedup();
+    if compared {
+        out.nt.push(fnv64(format!("{}|{}|{:?}", src0, d0, batches).as_bytes()));
+    }
+    Ok(out)
+}
+
 pub fn expand(c: &Case) -> (Vec<String>, Vec<Value>, Vec<Vec<String>>) {
     let mut datas = vec![c.d0.to_js()];
     let mut trees = vec![];
@@ -247,11 +447,13 @@ pub fn run(tier: Tier, seed: u64, findings: &Findings) -> i32 {
     report.merge(super::run_regress(&check, &cfg, findings));
     let cases = tier.pick(30_000, 400_000);
     report.merge(engine::run_generated(&check, &cfg, cases, 8, 16, findings, 0));
+    // the real template engine (tmpl/index.ts) over focused templates
+    report.merge(engine::run_generated(&C06Engine, &cfg, tier.pick(12_000, 300_000), 8, 16, findings, 1));
     engine::finish(
         Finish {
             cfg,
             report,
-            rule: "cases = (generated multi-file group, D0, 1-4 update steps); each step = 1-3 interpreted edits (replace, delete, array push/pop/insert/remove/swap/reverse, keyed insert, list kind flip, object key reorder) and an update-path tree built from the actual diff in one of the styles exact / coarsened / extra marks / splice-shaped prototype array / true (asserted to cover the diff); for templates with a dynamic-slot component a step also carries 0-3 slot operations (set a slot value, insert / remove / rename a slot, remove two slots in one call; before or after the owner's update) performed on every live component through the shadow-root protocol (replaceSlotValue, applySlotValueUpdates, applySlotUpdates, insert / remove handlers), the fresh side starting from the resulting slot list. Oracle: after every step dump(updated instance) deep-equals dump(fresh creation with the same data), real generated code + real ProcGenWrapper + real RangeListManager on the stub DOM on both sides. non-trivial = at least one step with a non-empty diff that was compared; distinct by (source, data sequence). compared_units = nodes compared after updates.".into(),
+            rule: "cases = (generated multi-file group, D0, 1-4 update steps); each step = 1-3 interpreted edits (replace, delete, array push/pop/insert/remove/swap/reverse, keyed insert, list kind flip, object key reorder) and an update-path tree built from the actual diff in one of the styles exact / coarsened / extra marks / splice-shaped prototype array / true (asserted to cover the diff); for templates with a dynamic-slot component a step also carries 0-3 slot operations (set a slot value, insert / remove / rename a slot, remove two slots in one call; before or after the owner's update) performed on every live component through the shadow-root protocol (replaceSlotValue, applySlotValueUpdates, applySlotUpdates, insert / remove handlers), the fresh side starting from the resulting slot list. Oracle: after every step dump(updated instance) deep-equals dump(fresh creation with the same data), real generated code + real ProcGenWrapper + real RangeListManager on the stub DOM on both sides. non-trivial = at least one step with a non-empty diff that was compared; distinct by (source, data sequence). compared_units = nodes compared after updates. Engine stage: cases = (one of seven focused templates, small data object, 1-3 batches of 1-5 replace / splice operations, update mode); the real GlassEaselTemplateEngine of tmpl/index.ts runs initValues / updateValues(data, changes) and is compared with a fresh instance after every batch.".into(),
             assumptions: vec!["stub DOM child operations mirror element.ts".into(), "update-path trees are null-prototype objects / prototype arrays as built by tmpl/index.ts; splice-shaped trees mark shifted indexes and length too, except in scenarios whose arrays are read through wx:for alone".into(), "js/stub_dom.mjs DynShadowRoot mirrors the dynamic-slot protocol of shadow_root.ts; the light-DOM order of a dynamic-slot host is compared per slot instance".into()],
             started,
             exhaustive: false,
@@ -261,6 +463,9 @@ pub fn run(tier: Tier, seed: u64, findings: &Findings) -> i32 {
 }
 
 pub fn replay(v: &Value, path: &str, findings: &Findings) -> i32 {
+    if v["case"]["engine_stage"].as_bool() == Some(true) {
+        return super::replay_generic(&C06Engine, "C06", v, path, findings);
+    }
     let check = C06 { cfg: gen::wxml::WxmlCfg::new(2, 2), max_steps: 4 };
     super::replay_generic(&check, "C06", v, path, findings)
 }
